@@ -64,6 +64,7 @@ type c10Conn struct {
 	yield       bool
 	gate        func(p []byte)          // called between the halves, on the writer's goroutine
 	onFrame     func(c *c10Conn, f []byte) // broker
+	onBroken    func()                     // called once when the broker cannot frame the wire any more
 }
 
 func newC10Conn() *c10Conn {
@@ -115,6 +116,7 @@ func (c *c10Conn) Write(p []byte) (int, error) {
 	c.emitted = append(c.emitted, cp[h:])
 	c.stream = append(c.stream, cp[h:]...)
 	var frames [][]byte
+	justBroken := false
 	for !c.broken {
 		f, rest, st := c10SplitFrame(c.stream)
 		if st == 0 {
@@ -122,14 +124,18 @@ func (c *c10Conn) Write(p []byte) (int, error) {
 		}
 		if st < 0 {
 			c.broken = true
+			justBroken = true
 			break
 		}
 		frames = append(frames, f)
 		c.stream = rest
 	}
 	c.inFlight--
-	on := c.onFrame
+	on, ob := c.onFrame, c.onBroken
 	c.mu.Unlock()
+	if justBroken && ob != nil {
+		ob()
+	}
 	if on != nil {
 		for _, f := range frames {
 			on(c, f)
@@ -385,6 +391,16 @@ func c10WireRun(rng *rand.Rand, nG, nOps, nInbound int, observers bool) c10RunOb
 	}
 	expected := [][]byte{c10EncConnect("cid")}
 	var emu sync.Mutex
+	var opErrors []string
+	stuck := false
+	// the whole run is abandoned as soon as the wire is corrupt or an operation fails (only
+	// broken trees get there; it keeps their runs short)
+	runCtx, cancelRun := context.WithCancel(context.Background())
+	defer cancelRun()
+	conn.mu.Lock()
+	conn.onBroken = cancelRun
+	conn.mu.Unlock()
+	ctxTimeout := func(d time.Duration) (context.Context, context.CancelFunc) { return context.WithTimeout(runCtx, d) }
 	addExp := func(p ...[]byte) {
 		emu.Lock()
 		expected = append(expected, p...)
@@ -392,8 +408,9 @@ func c10WireRun(rng *rand.Rand, nG, nOps, nInbound int, observers bool) c10RunOb
 	}
 	opErr := func(s string) {
 		emu.Lock()
-		obs.OpErrors = append(obs.OpErrors, s)
+		opErrors = append(opErrors, s)
 		emu.Unlock()
+		cancelRun()
 	}
 	// plan every goroutine's operations up front (deterministic from the seed)
 	type op struct {
@@ -512,13 +529,14 @@ func c10WireRun(rng *rand.Rand, nG, nOps, nInbound int, observers bool) c10RunOb
 	}
 	close(start)
 	if !c10WaitGroup(&wg, 60*time.Second) {
-		obs.Stuck = true
+		stuck = true
 	}
 	if done != nil {
 		select {
 		case <-done:
+		case <-runCtx.Done():
 		case <-time.After(20 * time.Second):
-			obs.Stuck = true
+			stuck = true
 		}
 	}
 	close(stopObs)
@@ -528,10 +546,12 @@ func c10WireRun(rng *rand.Rand, nG, nOps, nInbound int, observers bool) c10RunOb
 	select {
 	case <-cli.Done():
 	case <-time.After(20 * time.Second):
-		obs.Stuck = true
+		stuck = true
 	}
 	emu.Lock()
 	obs.Emitted, obs.Calls, obs.Expected, obs.MaxInFlight = c10Hex(emitted), c10Hex(calls), c10Hex(expected), maxIn
+	obs.OpErrors = append([]string{}, opErrors...)
+	obs.Stuck = stuck
 	emu.Unlock()
 	return obs
 }
@@ -623,7 +643,14 @@ func c10Probe(sp c10ProbeSpec) c10ProbeObs {
 	conn.mu.Unlock()
 	var wg sync.WaitGroup
 	var emu sync.Mutex
-	opErr := func(s string) { emu.Lock(); po.OpErrors = append(po.OpErrors, s); emu.Unlock() }
+	var opErrors []string
+	runCtx, cancelRun := context.WithCancel(context.Background())
+	defer cancelRun()
+	conn.mu.Lock()
+	conn.onBroken = cancelRun
+	conn.mu.Unlock()
+	ctxTimeout := func(d time.Duration) (context.Context, context.CancelFunc) { return context.WithTimeout(runCtx, d) }
+	opErr := func(s string) { emu.Lock(); opErrors = append(opErrors, s); emu.Unlock() }
 	wg.Add(1)
 	go func() {
 		defer wg.Done()
@@ -732,7 +759,10 @@ func c10Probe(sp c10ProbeSpec) c10ProbeObs {
 		po.Stuck = true
 	}
 	// let the reader finish its acknowledgements: all expected packets written, or timeout
-	c10Until(func() bool { _, calls, _, _ := conn.snapshot(); return len(calls) >= len(expected) })
+	c10Until(func() bool {
+		_, calls, _, broken := conn.snapshot()
+		return len(calls) >= len(expected) || broken || runCtx.Err() != nil
+	})
 	emitted, calls, maxIn, _ := conn.snapshot()
 	cli.Close()
 	select {
@@ -741,6 +771,9 @@ func c10Probe(sp c10ProbeSpec) c10ProbeObs {
 		po.Stuck = true
 	}
 	po.Emitted, po.Calls, po.Expected, po.MaxInFlight = c10Hex(emitted), c10Hex(calls), c10Hex(expected), maxIn
+	emu.Lock()
+	po.OpErrors = append(po.OpErrors, opErrors...)
+	emu.Unlock()
 	return po
 }
 
@@ -1349,7 +1382,7 @@ func runC10(cfg *runCfg) error {
 	}
 	waitCh := make(chan error, 1)
 	go func() { waitCh <- cmd.Wait() }()
-	limit := 12 * time.Minute
+	limit := 5 * time.Minute
 	if cfg.tier == "thorough" {
 		limit = 40 * time.Minute
 	}
